@@ -12,6 +12,7 @@ C19 property theorems.
 -/
 import LndModel.C19.ReachLemmas
 import LndModel.C19.Finality
+import LndModel.C19.CrossC09
 
 namespace LndModel.C19
 
@@ -214,6 +215,55 @@ theorem fixAlg_lawful (pen minp : Nat) : (fixAlg pen minp).Lawful := by
     generalize pen * 1000000 / max p 1 = a
     omega
 
+/-! ### Cross-property link to C09 (forwarding decision of every hop) -/
+
+/-- C19's per-hop fee demand is C09's `requiredFee` (outbound fee of the outgoing
+    channel + inbound fee of the incoming channel on amount + outbound fee, rate
+    clamped, truncating division), floored at zero: the formulas coincide. -/
+theorem requiredFee_coincides_C09 (p : Policy) (inb : Int × Int) (amtIn out tlIn tlOut height : Nat) :
+    (requiredFee p inb out : Int) =
+      max 0 (C09.Spec.requiredFee (toC09Policy p) (toC09Inputs amtIn out tlIn tlOut height inb)) :=
+  requiredFee_eq_C09 p inb amtIn out tlIn tlOut height
+
+/-- Every hop of a route that satisfies C19 passes C09's forwarding check at
+    that hop: at each forwarding node, `CheckHtlcForward` (C09's exact-integer
+    decision `C09.Spec.checkHtlcForward`, which C09 proves equal to the Go
+    arithmetic on its domain) evaluated with the node's own graph policy for the
+    outgoing channel, its inbound fee on the incoming channel and the route's
+    amounts/expiries accepts — fee, time-lock delta, min/max HTLC — for every
+    run-time state of the node in which the rules that do not depend on the
+    route hold (expiry not too soon / too far for the current height,
+    bandwidth of the outgoing link, incoming−outgoing delta ≤ max CLTV). -/
+theorem route_hop_passes_C09 (g : Graph) (r : Req) (rt : Route) (H : RouteValid g r rt) :
+    AllFwdPassC09 g r.source rt.totalAmt rt.totalTL rt.hops :=
+  chain_passes_C09 H.hops H.fees
+
+/-- … in particular for every route the monitor accepts. -/
+theorem routeOK_hop_passes_C09 (g : Graph) (r : Req) (rt : Route) (H : routeOK g r rt = true) :
+    AllFwdPassC09 g r.source rt.totalAmt rt.totalTL rt.hops :=
+  route_hop_passes_C09 g r rt (checker_meaning g r rt H)
+
+/-! ### Invoice route hints (`RouteHintsToEdges`) -/
+
+/-- `cs` is a chain of one-directional channels from `a` to `b`. -/
+def ChansPath : Nat → Nat → List Chan → Prop
+  | a, b, [] => a = b
+  | a, b, c :: cs => c.n1 = a ∧ c.p1.isSome = true ∧ c.p2 = none ∧ ChansPath c.n2 b cs
+
+/-- The additional edges of one route hint form a connected chain from the
+    first hop hint's node to the target, over exactly the hinted channels in
+    order, each carrying its own hop hint's fee policy (the edge of hop hint
+    `i` ends where hop hint `i+1` starts). -/
+theorem hintChans_path (target : Nat) : ∀ (h : HopHint) (hs : List HopHint),
+    ChansPath h.node target (hintChans target (h :: hs)) ∧
+    (hintChans target (h :: hs)).map (·.id) = (h :: hs).map (·.chan) ∧
+    (hintChans target (h :: hs)).map (·.p1) = (h :: hs).map (fun x => some x.policy)
+  | h, [] => by simp [hintChans, ChansPath]
+  | h, h' :: rest => by
+    obtain ⟨i1, i2, i3⟩ := hintChans_path target h' rest
+    simp only [hintChans, ChansPath, List.map_cons, Option.isSome_some]
+    exact ⟨by simp [i1], by rw [i2]; rfl, by rw [i3]; rfl⟩
+
 /-! ### Non-vacuity -/
 
 /-- A three-node line `0 —1→ 1 —2→ 2` where node 1 charges 1000 msat + 1 %, with a
@@ -273,6 +323,22 @@ example : Run exAlg exGraph exReq exCfg exS4 ∧ exS4.wrapped = false ∧ exS4.d
   refine ⟨?_, by decide, by decide, by decide⟩
   exact Run.pop 0 (Run.relax 0 _ (Run.pop 1 (Run.relax 1 _ Run.init (by decide)) (by decide)
     (by decide)) (by decide)) (by decide) (by decide)
+
+/-- `route_hop_passes_C09` on the example: node 1 of `exRoute` accepts the forward
+    under C09's decision (reject delta 3, max CLTV 2016, bandwidth 2·10^6), and
+    rejects it with `FeeInsufficient` when the route underpays by one msat. -/
+example : AllFwdPassC09 exGraph exReq.source exRoute.totalAmt exRoute.totalTL exRoute.hops :=
+  route_hop_passes_C09 exGraph exReq exRoute (checker_meaning _ _ _ (by decide))
+example : C09.Spec.checkHtlcForward (toC09Policy ⟨1000, 50000000, true, 1000, 10000, 40, false, 0, 0⟩)
+    ⟨3, 2016, 2000000⟩ (toC09Inputs 1010500 1000000 800049 800009 800000 (-500, 0)) = .accept := by
+  decide
+example : C09.Spec.checkHtlcForward (toC09Policy ⟨1000, 50000000, true, 1000, 10000, 40, false, 0, 0⟩)
+    ⟨3, 2016, 2000000⟩ (toC09Inputs 1010499 1000000 800049 800009 800000 (-500, 0)) =
+      .feeInsufficient := by
+  decide
+/-- a chained route hint `5 —1001→ 6 —1002→ target 2`. -/
+example : (hintChans 2 [⟨5, 1001, 1000, 1, 40⟩, ⟨6, 1002, 2000, 0, 30⟩]).map (fun c => (c.id, c.n1, c.n2)) =
+    [(1001, 5, 6), (1002, 6, 2)] := by decide
 
 /-! ### The `Fits` hypothesis is necessary (finding: fee arithmetic wraps)
 
